@@ -296,7 +296,43 @@ func (x *fx) unknownCall(what string, rt types.Type, set func(*Val)) {
 	if tup, ok := rt.(*types.Tuple); ok && tup.Len() == 0 {
 		return
 	}
-	set(x.havocVal("ret", rt))
+	res := x.havocVal("ret", rt)
+	set(res)
+	// assumed facts about the results of this unmodelled callee (callensures)
+	if x.curCallee != nil {
+		dname := calleeDisplayName(x.curCallee)
+		for _, cl := range x.c.CallEnsures[dname] {
+			cargs := x.curCallee.Args
+			env := &specEnv{mem: x.curMem, pkg: x.fn.Pkg.Pkg, top: x.curTop()}
+			pe := x.paramEnv(x.curMem)
+			env.look = func(n string) *Val {
+				if strings.HasPrefix(n, "result") {
+					k := 0
+					if n != "result" {
+						fmt.Sscanf(n[6:], "%d", &k)
+					}
+					if res.Tup != nil && k < len(res.Tup) {
+						return res.Tup[k]
+					}
+					if res.Tup == nil && k == 0 {
+						return res
+					}
+				}
+				if strings.HasPrefix(n, "arg") {
+					var k int
+					if _, err := fmt.Sscanf(n[3:], "%d", &k); err == nil && k < len(cargs) {
+						if v, ok := x.lookupVal(cargs[k]); ok {
+							return v
+						}
+					}
+				}
+				return pe.look(n)
+			}
+			env.old = x.paramEnv(x.entryMem)
+			x.assume(x.evalBool(cl.E, env))
+			x.assumptions["callee "+dname+" satisfies: "+cl.Src+" (callensures)"] = true
+		}
+	}
 }
 
 func (x *fx) havocAllMem(tagp string) {
